@@ -277,7 +277,36 @@ func checkProperty(repo, verif, prop, tier string, seed, timeout int, writeEvide
 		return 2, err
 	}
 	results := verifyCone(e, prop)
-	to := 10 * time.Second
+	// contracts written for the other architectures (portable fallbacks) are checked by
+	// loading the tree a second time with GOARCH=arm64
+	otherArch := false
+	for _, fc := range e.skipped {
+		for _, c := range fc.Ensures {
+			if hasTag(c.Tags, prop) {
+				otherArch = true
+			}
+		}
+	}
+	if otherArch {
+		e2, err := loadEngine(repo, "arm64")
+		if err != nil {
+			return 2, fmt.Errorf("loading with GOARCH=arm64: %v", err)
+		}
+		for _, fc := range e.skipped {
+			k := fc.Key()
+			if _, ok := e2.infos[k]; ok {
+				r := e2.verifyFunc(k)
+				r.Key = k + "[GOARCH=arm64]"
+				r.Fn += "[GOARCH=arm64]"
+				for _, o := range r.Obls {
+					o.Name = strings.Replace(o.Name, "#", "[arm64]#", 1)
+				}
+				results = append(results, r)
+				e.fnOf[r.Key] = e2.fnOf[k]
+			}
+		}
+	}
+	to := 20 * time.Second
 	all := false
 	if tier == "thorough" {
 		to = 120 * time.Second
@@ -288,7 +317,7 @@ func checkProperty(repo, verif, prop, tier string, seed, timeout int, writeEvide
 	}
 	outDir := filepath.Join(verif, "out", prop+"-"+tier)
 	os.RemoveAll(outDir)
-	dischargeAll(results, solveOpts{OutDir: outDir, Timeout: to, Seed: seed, All: all, Jobs: 6})
+	dischargeAll(results, solveOpts{OutDir: outDir, Timeout: to, Seed: seed, All: all, Jobs: 8})
 	lock := readLock(filepath.Join(verif, "obligations.lock"))[prop]
 	findings := readFindings(filepath.Join(verif, "KNOWN_FINDINGS.txt"))
 	isKnown := func(name string) *finding {
@@ -517,17 +546,36 @@ func writeLock(repo, verif string, props []string, timeout int) error {
 	if err != nil {
 		return err
 	}
-	to := 10 * time.Second
+	to := 20 * time.Second
 	if timeout > 0 {
 		to = time.Duration(timeout) * time.Second
 	}
 	for _, p := range props {
 		results := verifyCone(e, p)
+		for _, fc := range e.skipped {
+			tagged := false
+			for _, c := range fc.Ensures {
+				tagged = tagged || hasTag(c.Tags, p)
+			}
+			if !tagged {
+				continue
+			}
+			if e2, err := loadEngine(repo, "arm64"); err == nil {
+				k := fc.Key()
+				if _, ok := e2.infos[k]; ok {
+					r := e2.verifyFunc(k)
+					for _, o := range r.Obls {
+						o.Name = strings.Replace(o.Name, "#", "[arm64]#", 1)
+					}
+					results = append(results, r)
+				}
+			}
+		}
 		if len(results) == 0 {
 			delete(old, p)
 			continue
 		}
-		dischargeAll(results, solveOpts{OutDir: filepath.Join(verif, "out", "lock-"+p), Timeout: to, Seed: 0, Jobs: 6})
+		dischargeAll(results, solveOpts{OutDir: filepath.Join(verif, "out", "lock-"+p), Timeout: to, Seed: 0, Jobs: 8})
 		classes := map[string]bool{}
 		bad := map[string]bool{}
 		n := 0
@@ -538,7 +586,7 @@ func writeLock(repo, verif string, props []string, timeout int) error {
 				}
 				cls := shortObl(baseName(o.Name))
 				// only lock what discharges comfortably (well under the quick timeout)
-				if o.Status == "discharged" && o.Time < to.Seconds()/2 {
+				if o.Status == "discharged" && o.Time < 8 {
 					classes[cls] = true
 				} else {
 					bad[cls] = true
